@@ -985,7 +985,10 @@ class ExecBase:
                         out = z3.Store(out, z3.StringVal(cst), ABSENT)
                     return st.new(Cell("dict", val=Val("d", out)))
             body = z3.If(z3.And(z3.Select(src, kc) != ABSENT, cond), val, ABSENT)
-            return st.new(Cell("dict", val=Val("d", z3.Lambda([kc], body))))
+            # an array constant defined pointwise (a z3 Lambda is not an ArrayRef: the map combinators used for dict merges refuse it)
+            R = fresh("dcomp", DictS)
+            st.assume(z3.ForAll([kc], z3.Select(R, kc) == body))
+            return st.new(Cell("dict", val=Val("d", R)))
         self.oos("dict comprehension shape", node)
 
     def e_ListComp(self, node, st):
